@@ -94,11 +94,6 @@ structure DState where
   rings : List RingReq
   deriving Repr, Inhabited
 
-/-- Python frames available to `_derive_mol_from_symbols` recursion before `RecursionError`;
-    the exact threshold depends on the caller's stack depth (DESIGN §3), so the harness never
-    compares inputs whose nesting depth is within a factor 2 of it. -/
-def recursionBudget : Nat := Gen.recursionLimit - 40
-
 def attrPush (stack : Option (List Attribution)) (i : Nat) (sym : Str) : Option (List Attribution) :=
   stack.map (· ++ [{ index := i, token := sym }])
 
